@@ -28,6 +28,7 @@ def run_item(prop, item, seed, make_monitor, max_len=60, styles=None, after_last
         b = envs.bundle(item["env"], item["entry"])
         shared = setup(ctx, b) if setup else None
         legal_fn = legal_fn_factory(b) if legal_fn_factory else None
+        solve_fn = episodes.solve_fn_for(b)
         kw = {"max_len": max_len}
         if styles:
             kw["styles"] = styles
@@ -38,7 +39,7 @@ def run_item(prop, item, seed, make_monitor, max_len=60, styles=None, after_last
             with ctx.guard(item["env"], rec.case(), size=10**6):
                 try:
                     summ = episodes.run_plan(b, rec, plan, mon, after_last=after_last,
-                                             legal_fn=legal_fn, stop_at_last=stop_at_last)
+                                             legal_fn=legal_fn, stop_at_last=stop_at_last, solve_fn=solve_fn)
                 except Exception:
                     # the case recorded by guard must contain the actions played so far
                     rec.extra["partial"] = True
